@@ -31,7 +31,7 @@ func (c16) Rule() string {
 }
 func (c16) Batches(string) int { return 32 }
 func (c16) Required(string) []string {
-	return []string{"chains", "traces_checked", "cfg.noopt", "cfg.opt", "cfg.encoded", "byte_zero_chains", "shift.300", "fail.throw-error", "fail.const-lhs", "fail.operator", "fail.builtin", "fail.arity", "fail.index", "fail.notcallable", "fail.gocallback", "fail.finally-rethrow",
+	return []string{"chains", "traces_checked", "cfg.noopt", "cfg.opt", "cfg.encoded", "byte_zero_chains", "shift.300", "fail.throw-error", "fail.folded-lhs", "fail.folded-call", "fail.folded-index", "fail.const-lhs", "fail.operator", "fail.builtin", "fail.arity", "fail.index", "fail.notcallable", "fail.gocallback", "fail.finally-rethrow",
 		"callee.closure", "callee.selector", "callee.module", "callee.argument", "multi_file_traces", "compile_error_positions", "depth.8"}
 }
 func (c16) Assumptions() []string {
@@ -57,7 +57,20 @@ type c16wit struct {
 	Why    string   `json:"why"`
 }
 
-var c16fails = []string{"const-lhs", "throw-error", "throw-string", "operator", "builtin", "arity", "index", "notcallable", "gocallback", "finally-rethrow", "in-loop-if"}
+// constant sub-expressions the optimizer replaces by one literal
+var c16folded = []string{"2 * 1.5", "1.5 * 2", "(1 + 2)", "1 + 2", "-3", "\"a\" + \"b\"", "2u << 1", "'a' + 1", "7 % 4", "1 + 2 * 3", "(2 * 1.5) * 2", "1 + 1.5 + 2", "3 - 1u", "10 / 4.0", "5 &^ 1"}
+
+// c16foldedPick >= 0 fixes the constant sub-expression used by the folded-* kinds (exhaustive part); -1 = random
+var c16foldedPick = -1
+
+func c16pickFolded(r *rand.Rand) string {
+	if c16foldedPick >= 0 {
+		return c16folded[c16foldedPick%len(c16folded)]
+	}
+	return c16folded[r.Intn(len(c16folded))]
+}
+
+var c16fails = []string{"folded-lhs", "folded-call", "folded-index", "const-lhs", "throw-error", "throw-string", "operator", "builtin", "arity", "index", "notcallable", "gocallback", "finally-rethrow", "in-loop-if"}
 
 type c16file struct {
 	name  string
@@ -92,6 +105,15 @@ func c16failLines(r *rand.Rand, f *c16file, kind, ind string) int {
 		f.add(ind + "const kc = 7")
 		f.add(ind + "em := {}")
 		return f.add(ind + "q := kc - em")
+	case "folded-lhs":
+		// the failing operator's left operand is a constant sub-expression folded by the optimizer
+		f.add(ind + "em := {}")
+		return f.add(ind + "q := " + c16pickFolded(r) + " - em")
+	case "folded-call":
+		return f.add(ind + "q := (" + c16pickFolded(r) + ")(1)")
+	case "folded-index":
+		f.add(ind + "arr := [1, 2]")
+		return f.add(ind + "q := (" + c16pickFolded(r) + ")[arr]")
 	case "throw-error":
 		return f.add(ind + "throw error(\"boom\")")
 	case "throw-string":
@@ -467,6 +489,25 @@ func (m c16) Run(c *core.Ctx) {
 			}
 			m.note(c, ch)
 			m.checkChain(c, ch)
+		}
+	}
+	// every foldable constant sub-expression as the leading operand of a failing operator / call / index, depth 0..2
+	for fi := range c16folded {
+		for depth := 0; depth <= 2; depth++ {
+			for _, fk := range []string{"folded-lhs", "folded-call", "folded-index"} {
+				idx++
+				c16foldedPick = fi
+				ch := c16build(c.Rng, depth, fk)
+				c16foldedPick = -1
+				if idx%c.NBatch != c.Batch {
+					continue
+				}
+				if !c.Begin(func() string { return ch.Main }) {
+					continue
+				}
+				m.note(c, ch)
+				m.checkChain(c, ch)
+			}
 		}
 	}
 	// positions at byte 0 of a file (line 1, column 1): the failing statement or the calling statement is the very first
